@@ -22,6 +22,7 @@ import (
 // Nothing is compared here.
 
 const c12Calls = 8
+const c12StaticCalls = 4
 
 // c12Mapper implements influxql.FieldMapper (and CallTypeMapper) from the schema record.
 // Every call builds fresh Go maps, so the randomised iteration order of Go maps is
@@ -29,9 +30,43 @@ const c12Calls = 8
 type c12Mapper struct {
 	schema []interface{}
 	rot    int
+	static map[string]*c12cached // non-nil: a mapper that caches its maps per measurement
+}
+
+// c12Prelude are the statements run through the static mapper before the case's own statement:
+// other wildcard statements over the same schema (grouping by every tag, by a wildcard, call
+// wildcards).  The result of the case's statement must not depend on them.
+func c12Prelude(schema []interface{}) []string {
+	out := []string{}
+	for _, x := range schema {
+		e := obj(x)
+		m := influxql.QuoteIdent(str(e["name"]))
+		for _, t := range list(e["tags"]) {
+			out = append(out, "SELECT * FROM "+m+" GROUP BY "+influxql.QuoteIdent(str(t)))
+		}
+		out = append(out, "SELECT * FROM "+m+" GROUP BY *", "SELECT mean(*) FROM "+m, "SELECT /./ FROM "+m+" GROUP BY /./",
+			"SELECT *::field FROM "+m+" GROUP BY time(1m), *")
+	}
+	return out
+}
+
+// c12cached holds the maps a static mapper hands out: the same maps on every call, like a
+// schema cache.  What RewriteFields does to them stays visible to every later call.
+type c12cached struct {
+	fields map[string]influxql.DataType
+	dims   map[string]struct{}
 }
 
 func (m *c12Mapper) FieldDimensions(ms *influxql.Measurement) (map[string]influxql.DataType, map[string]struct{}, error) {
+	if m.static != nil {
+		if c, ok := m.static[ms.Name]; ok {
+			return c.fields, c.dims, nil
+		}
+		sub := &c12Mapper{schema: m.schema, rot: m.rot}
+		f, d, _ := sub.FieldDimensions(ms)
+		m.static[ms.Name] = &c12cached{fields: f, dims: d}
+		return f, d, nil
+	}
 	fields := make(map[string]influxql.DataType)
 	dims := make(map[string]struct{})
 	for _, x := range m.schema {
@@ -130,13 +165,40 @@ func c12Run(c M) M {
 	}
 	o["parsed"] = project(sel)
 	o["before"] = snapshot(sel)
-	res := make([]interface{}, 0, c12Calls)
+	res := make([]interface{}, 0, c12Calls+c12StaticCalls)
 	for k := 0; k < c12Calls; k++ {
 		m := &c12Mapper{schema: list(c["schema"]), rot: k}
 		var out *influxql.SelectStatement
 		var rerr error
 		e := M{}
 		if p := guard(func() { out, rerr = sel.RewriteFields(m) }); p != "" {
+			e["panic"] = p
+		} else if rerr != nil {
+			e["err"] = errStr(rerr)
+		} else if out == nil {
+			e["err"] = "(nil statement, nil error)"
+		} else {
+			e["stmt"] = project(out)
+			e["str"] = out.String()
+		}
+		res = append(res, e)
+	}
+	// a schema cache: the same maps on every call, other statements expanded first
+	sm := &c12Mapper{schema: list(c["schema"]), static: map[string]*c12cached{}}
+	for _, ptext := range c12Prelude(list(c["schema"])) {
+		guard(func() {
+			if pst, perr := influxql.ParseStatement(ptext); perr == nil {
+				if psel, ok := pst.(*influxql.SelectStatement); ok {
+					psel.RewriteFields(sm)
+				}
+			}
+		})
+	}
+	for k := 0; k < c12StaticCalls; k++ {
+		var out *influxql.SelectStatement
+		var rerr error
+		e := M{}
+		if p := guard(func() { out, rerr = sel.RewriteFields(sm) }); p != "" {
 			e["panic"] = p
 		} else if rerr != nil {
 			e["err"] = errStr(rerr)
